@@ -206,6 +206,25 @@ func main() {
 				}
 			}
 		}
+		// cross-class strings: every regional-parameters revision constant passed as PROTOCOL VERSION (an
+		// unknown version: must resolve like latest, and the same query on the repeater / non-repeater
+		// objects must stay ordered) and every protocol version constant passed as revision
+		if !c.Alias || thorough {
+			for _, ver := range knownRevisions[:7] {
+				for _, rev := range []string{band.RegParamRevA, band.RegParamRevRP002_1_0_0, band.RegParamRevRP002_1_0_3, "ZZ-unknown", ver} {
+					for _, dr := range []int{0, 2, 5, 7} {
+						maxpl(c, b, ver, rev, dr, "maxpl-revision-as-version")
+					}
+				}
+			}
+			for _, rev := range knownVersions[:6] {
+				for _, ver := range []string{band.LoRaWAN_1_0_2, band.LoRaWAN_1_1_0, "9.9.9", rev} {
+					for _, dr := range []int{0, 2, 5, 7} {
+						maxpl(c, b, ver, rev, dr, "maxpl-version-as-revision")
+					}
+				}
+			}
+		}
 		for _, dr := range []int{-1, 16, 255, -(1 << 40)} {
 			maxpl(c, b, "1.0.3", "A", dr, "maxpl-dr-out-of-range")
 			maxpl(c, b, "", "", dr, "maxpl-dr-out-of-range")
